@@ -79,6 +79,8 @@ def verify_contract(registry, repo: Repo, contract, options=None) -> FunctionRep
 
 
 def _verify_alternative(registry, repo, contract, mod, fnode, cnode, names, combo, rep, tag, options):
+    V.reset_names()  # deterministic symbol names per (function, alternative): verdicts do not depend on what ran before
+    mod._global_cache.clear()
     ctx = Ctx(repo, registry, fn_label=contract.qualname + tag, options=dict(options))
     ctx.current_contract = contract
     ctx.current_mod = mod
@@ -115,7 +117,7 @@ def _verify_alternative(registry, repo, contract, mod, fnode, cnode, names, comb
     pre_env = dict(st.env)
     st.env["__pre__"] = pre_env
     for name, expr in contract.lets.items():
-        st.env[name] = registry.eval_clause(interp, st, expr)
+        st.env[name] = registry.eval_clause_value(interp, st, expr)
         pre_env[name] = st.env[name]
     for r in contract.requires:
         st.assume(registry.eval_clause(interp, st, r))
@@ -174,8 +176,16 @@ def _verify_alternative(registry, repo, contract, mod, fnode, cnode, names, comb
                 ctx.oblige(pst, False, f"no-exception[{o.exc}]#p{k}", fnode, "raises", meta={"exc": o.exc, "trace": list(fin.trace)})
         else:
             raise Outside(f"{o.kind} outside a loop")
-    for ob in ctx.obligations:
-        ob.label = ob.label  # already prefixed with the function label
+    # vacuity canaries: the assumptions at the end of every explored path must be satisfiable
+    for k, o in enumerate(outs):
+        can = z3.Tactic("default").solver()
+        can.set("timeout", 1500)
+        for h in o.st.hyps():
+            can.add(h)
+        r = can.check()
+        rep.vacuity.setdefault("canaries", []).append(str(r))
+        if r == z3.unsat:
+            rep.vacuity["dead_paths"].append(f"{contract.qualname}{tag}#p{k}: {' > '.join(o.st.trace[-4:])}")
     rep.obligations.extend(ctx.obligations)
     rep.trivial += ctx.trivial
     rep.notes.extend(ctx.notes)
